@@ -59,7 +59,7 @@ class StructParam(Parameter):
 
     insideRW = 0  # counter for avoiding multiple superfluous updates
 
-    def __init__(self, description=None, paramdict=None, prefix='', *, datatype=None, readonly=False, **kwds):
+    def __init__(self, description=None, paramdict=None, prefix='', *, datatype=None, readonly=None, **kwds):
         """create a struct parameter together with individual parameters
 
         in addition to normal Parameter arguments:
@@ -77,7 +77,11 @@ class StructParam(Parameter):
         self.updateEnable = {}
         if paramdict:
             kwds['paramdict'] = paramdict
-        super().__init__(description, datatype, readonly=readonly, **kwds)
+        if readonly is None and paramdict is not None:
+            readonly = False  # default for a newly declared struct parameter
+        if readonly is not None:  # on Parameter.copy(): keep the inherited value
+            kwds['readonly'] = readonly
+        super().__init__(description, datatype, **kwds)
 
     def __set_name__(self, owner, name):
         # names of access methods of structed param (e.g. ctrlpars)
@@ -215,11 +219,15 @@ class FloatEnumParam(Parameter):
                 'P': 15, 'E': 18, 'Z': 21, 'Y': 24, 'R': 25, 'Q': 30}
 
     def __init__(self, description=None, labels=None, unit='',
-                 *, datatype=None, readonly=False, **kwds):
+                 *, datatype=None, readonly=None, **kwds):
         if labels is None:
-            # called on Parameter.copy()
-            super().__init__(description, datatype, readonly=readonly, **kwds)
+            # called on Parameter.copy(): keep the inherited value of readonly
+            if readonly is not None:
+                kwds['readonly'] = readonly
+            super().__init__(description, datatype, **kwds)
             return
+        if readonly is None:
+            readonly = False  # default for a newly declared parameter
         if isinstance(labels, DataType):
             raise ProgrammingError('second argument must be a list of labels, not a datatype')
         nextidx = 0
